@@ -217,6 +217,17 @@ VARIANTS = [
                 "        return self._pick_repr(tmpl_variable, unpacked_data)\n\n"
                 "    def _pick_repr(self, tmpl_variable, unpacked_data):\n"},
         {"file": DES, "old": 'return unpacked_data[:-1].decode("utf8")', "new": r'return unpacked_data.rstrip(b"\x00").decode("utf8")'}]},
+    {"name": "P R6 packer closures replaced by functools.partial over module functions", "expect": "silent", "edits": [
+        {"file": PACK, "old": "import socket\n", "new": "import functools\nimport socket\n"},
+        {"file": PACK, "old": "        def _packer(x):\n            return struct_obj.pack(*x)\n",
+         "new": "        _packer = functools.partial(_pack_all, struct_obj)\n"},
+        {"file": PACK, "old": "def _make_tuplecoord_spec(", "new": "def _pack_all(struct_obj, x):\n    return struct_obj.pack(*x)\n\n\ndef _make_tuplecoord_spec("}]},
+    {"name": "R6 partial-based packer scales the components", "expect": "C02.R6", "edits": [
+        {"file": PACK, "old": "import socket\n", "new": "import functools\nimport socket\n"},
+        {"file": PACK, "old": "        def _packer(x):\n            return struct_obj.pack(*x)\n",
+         "new": "        _packer = functools.partial(_pack_all, struct_obj)\n"},
+        {"file": PACK, "old": "def _make_tuplecoord_spec(",
+         "new": "def _pack_all(struct_obj, x):\n    return struct_obj.pack(*[round(c, 4) for c in x])\n\n\ndef _make_tuplecoord_spec("}]},
     # ------------------------------------------------------------------ R5 breaking
     {"name": "R5 writer skips on truthiness", "file": SER, "expect": "C02.R5",
      "old": "if block_list is None:", "new": "if not block_list:"},
